@@ -708,6 +708,10 @@ class SymbolTable():
         # Any wildcard imports that appear in one table but not in the other.
         unique_wildcard_imports = self_imports ^ other_imports
 
+        # Symbols to specialise once every check has passed (so that a
+        # rejected table is left unchanged).
+        to_specialise = []
+
         for other_sym in other_table.symbols:
             if other_sym.name not in self or other_sym in symbols_to_skip:
                 continue
@@ -749,11 +753,12 @@ class SymbolTable():
                         # An unresolved symbol representing an intrinisc is OK
                         _ = IntrinsicCall.Intrinsic[this_sym.name.upper()]
                         # Take this opportunity to specialise the symbol(s).
-                        if not isinstance(this_sym, IntrinsicSymbol):
-                            this_sym.specialise(IntrinsicSymbol)
-                        if not isinstance(other_sym, IntrinsicSymbol):
-                            other_sym.specialise(IntrinsicSymbol)
-                        continue
+                        pair = [sym for sym in (this_sym, other_sym)
+                                if not isinstance(sym, IntrinsicSymbol)]
+                        if all(issubclass(IntrinsicSymbol, type(sym))
+                               for sym in pair):
+                            to_specialise.extend(pair)
+                            continue
                     except KeyError:
                         pass
                 # We can't rename a symbol if we don't know its origin.
@@ -773,6 +778,9 @@ class SymbolTable():
                         f"There is a name clash for symbol '{this_sym.name}' "
                         f"that cannot be resolved by renaming "
                         f"one of the instances because:\n- {err1}\n- {err2}")
+
+        for sym in to_specialise:
+            sym.specialise(IntrinsicSymbol)
 
     def _add_container_symbols_from_table(self, other_table):
         '''
